@@ -367,9 +367,593 @@ Definition check_seq (c : seqcase) : verdict :=
   let (m, p) := check_obs cf pos sz s (sort_dedup (q_init c)) (q_obs c) in
   verdict_of (m && res_eqb bres (q_bres c)) p.
 
-Inductive case := CSeq (c : seqcase).
+(** ================================================================== *)
+(** * Part 2: the concurrent transition system
+
+    One step = one atomic section of the code.  A thread executes its list of
+    operations; the program counter says where it is inside the current call.
+
+    Single-key calls (Has/Get/GetSize/View/Put/DeleteBlock) through
+    bloomcache -> tqcache -> blockstore:
+      [BActive]  bloomcache.hasCached reads [active]            (reads, deletes)
+      [BFilter]  ... then loads the filter pointer and tests membership
+      [TQuery]   tqcache.queryCache
+      [TLock]    tqcache.lock(key, write)   (blocks)
+      [SPre]     the backing store call (atomic map operation)
+      [SPost]    the call has taken effect and returns
+      [TUpd]     cacheHave / cacheSize / cacheInvalidate
+      [TUnlock]  tqcache.unlock
+      [BLoad]    bloomcache.Put: b.bloom.Load()
+      [BAdd g]   ... .AddTS(hash) on the filter loaded (generation g)
+    PutMany: [MQuery] per block, [MLock] per key (sorted), [MSPre]/[MSPost],
+      [MUpd] per key, [MUnlock] per key, then [MLoad]/[MAdd] per block.
+    Rebuild / initial build: [RMu] buildMu.Lock, [RDeact] active.Store(false),
+      [RSwap] bloom.Store(fresh), [RQPre]/[RQPost] the snapshot query,
+      [RNext] one enumeration result (the delivered key is added to the filter),
+      [RActivate] active.Store(true), [RMuUnlock].
+
+    Defect switches ([true] = what the code does today):
+      [d_toctou]: hasCached reads [active] and loads the filter in two steps;
+                  off = one atomic step.
+      [d_early]:  [RActivate] is taken regardless of Puts that have written the
+                  store but not yet added to the filter; off = it waits for them. *)
+
+Record flags := { d_toctou : bool; d_early : bool }.
+
+Definition tid := nat.
+
+(** single-key operation kinds *)
+Inductive sk := SKRead (rk : rkind) | SKPut (fault : bool) | SKDel (fault : bool).
+
+Inductive pc :=
+| PIdle
+| BActive (a : sk) (k : key)
+| BFilter (a : sk) (k : key)
+| TQuery (a : sk) (k : key)
+| TLock (a : sk) (k : key)
+| SPre (a : sk) (k : key)
+| SPost (a : sk) (k : key) (o : bool)        (* o: found (reads) / success (writes) *)
+| TUpd (a : sk) (k : key) (o : bool)
+| TUnlock (a : sk) (k : key) (r : res)
+| BLoad (k : key)
+| BAdd (k : key) (g : nat)
+| MQuery (ks : list key) (fault : bool) (todo good : list key)
+| MLock (ks : list key) (fault : bool) (locked todo : list key)
+| MSPre (ks : list key) (fault : bool) (good : list key)
+| MSPost (ks : list key) (good : list key) (o : bool)
+| MUpd (ks : list key) (good todo : list key)
+| MUnlock (ks : list key) (todo : list key) (r : res)
+| MLoad (todo : list key)
+| MAdd (todo : list key) (k : key) (g : nat)
+| RMu (rebuild : bool) (n : nat) (complete : bool)
+| RDeact (n : nat) (complete : bool)
+| RSwap (n : nat) (complete : bool)
+| RQPre (n : nat) (complete : bool)
+| RQPost (n : nat) (complete : bool) (snap : list key)
+| RNext (n : nat) (complete : bool) (i : nat) (rem : list key)
+| RActivate
+| RMuUnlock (r : res).
+
+Record thread := mkT { t_ops : list op; t_pc : pc; t_res : list res (* newest first *) }.
+
+Record cst := mkC {
+  g_store : list key;
+  g_cache : list (key * entry);
+  g_filt : N;                     (* the live filter *)
+  g_gen : nat;                    (* which filter object is live (bumped by Rebuild's swap) *)
+  g_active : bool;
+  g_thr : list (tid * thread)
+}.
+
+Definition idle_thread : thread := mkT [] PIdle [].
+Definition tget (s : cst) (t : tid) : thread :=
+  match lookup t (g_thr s) with Some x => x | None => idle_thread end.
+Definition tids (s : cst) : list tid := map fst (g_thr s).
+
+(** locks a thread holds, read off its program counter *)
+Definition is_write (a : sk) : bool := match a with SKRead _ => false | _ => true end.
+
+Definition held (p : pc) : list (key * bool) :=   (* (key, write?) *)
+  match p with
+  | SPre a k | SPost a k _ | TUpd a k _ | TUnlock a k _ => [(k, is_write a)]
+  | MLock _ _ locked _ => map (fun k => (k, true)) locked
+  | MSPre _ _ good | MSPost _ good _ => map (fun k => (k, true)) good
+  | MUpd _ good _ => map (fun k => (k, true)) good
+  | MUnlock _ todo _ => map (fun k => (k, true)) todo
+  | _ => []
+  end.
+
+Definition holds_mu (p : pc) : bool :=
+  match p with
+  | RDeact _ _ | RSwap _ _ | RQPre _ _ | RQPost _ _ _ | RNext _ _ _ _ | RActivate | RMuUnlock _ => true
+  | _ => false
+  end.
+
+(** the Put has written the store but its filter add is still to come *)
+Definition in_put_window (p : pc) : bool :=
+  match p with
+  | SPost (SKPut _) _ true | TUpd (SKPut _) _ true | TUnlock (SKPut _) _ ROk => true
+  | BLoad _ | BAdd _ _ => true
+  | MSPost _ _ true | MUpd _ _ _ | MUnlock _ _ ROk | MLoad _ | MAdd _ _ _ => true
+  | _ => false
+  end.
+
+Section Lts.
+Variable cf : cfg.
+Variable fl : flags.
+Variable pos : key -> N.
+Variable sz : key -> Z.
+
+Definition conflicts (k : key) (w : bool) (h : key * bool) : bool :=
+  (fst h =? k) && (w || snd h).
+
+(** may thread [t] take the lock of [k] (write lock iff [w])? *)
+Definition can_lock (s : cst) (t : tid) (k : key) (w : bool) : bool :=
+  forallb (fun t' => (t' =? t) || negb (existsb (conflicts k w) (held (t_pc (tget s t'))))) (tids s).
+
+Definition mu_free (s : cst) (t : tid) : bool :=
+  forallb (fun t' => (t' =? t) || negb (holds_mu (t_pc (tget s t')))) (tids s).
+
+Definition no_put_window (s : cst) (t : tid) : bool :=
+  forallb (fun t' => (t' =? t) || negb (in_put_window (t_pc (tget s t')))) (tids s).
+
+Definition set_thr (s : cst) (t : tid) (x : thread) : cst :=
+  mkC (g_store s) (g_cache s) (g_filt s) (g_gen s) (g_active s) (cset t x (g_thr s)).
+Definition set_pc (s : cst) (t : tid) (p : pc) : cst :=
+  let th := tget s t in set_thr s t (mkT (t_ops th) p (t_res th)).
+(** the current call returns [r] *)
+Definition finish (s : cst) (t : tid) (r : res) : cst :=
+  let th := tget s t in set_thr s t (mkT (t_ops th) PIdle (r :: t_res th)).
+
+Definition set_store (s : cst) x := mkC x (g_cache s) (g_filt s) (g_gen s) (g_active s) (g_thr s).
+Definition set_cache (s : cst) c := mkC (g_store s) c (g_filt s) (g_gen s) (g_active s) (g_thr s).
+Definition set_filt (s : cst) f := mkC (g_store s) (g_cache s) f (g_gen s) (g_active s) (g_thr s).
+Definition set_active (s : cst) a := mkC (g_store s) (g_cache s) (g_filt s) (g_gen s) a (g_thr s).
+Definition swap_filter (s : cst) := mkC (g_store s) (g_cache s) 0%N (S (g_gen s)) (g_active s) (g_thr s).
+
+Definition sk_missing (a : sk) : res :=
+  match a with SKRead rk => missing_res rk | _ => ROk end.
+
+(** where a single-key call goes after the Bloom check / directly *)
+Definition enter_inner (a : sk) (k : key) : pc := if c_tq cf then TQuery a k else SPre a k.
+(** where it starts *)
+Definition enter (a : sk) (k : key) : pc :=
+  match a with
+  | SKPut _ => enter_inner a k
+  | _ => if c_bloom cf then BActive a k else enter_inner a k
+  end.
+
+(** the inner (2Q + store) part of a single-key call returned [r] *)
+Definition after_inner (s : cst) (t : tid) (a : sk) (k : key) (r : res) : cst :=
+  match a, r with
+  | SKPut _, ROk => if c_bloom cf then set_pc s t (BLoad k) else finish s t r
+  | _, _ => finish s t r
+  end.
+
+(** result of a single-key call from the store outcome *)
+Definition sk_res (a : sk) (k : key) (o : bool) : res :=
+  match a with
+  | SKRead rk => read_res sz rk k o
+  | _ => if o then ROk else RErr
+  end.
+
+(** cache update after the store call *)
+Definition sk_upd (a : sk) (k : key) (o : bool) (c : list (key * entry)) : list (key * entry) :=
+  match a with
+  | SKRead rk => cset k (read_upd sz rk k o) c
+  | SKPut _ => if o then cset k (CSize (sz k)) c else cdel k c
+  | SKDel _ => if o then cset k (CHave false) c else cdel k c
+  end.
+
+(** can the 2Q layer answer from the cache entry? *)
+Definition sk_conclude (a : sk) (k : key) (e : entry) : option res :=
+  match a with
+  | SKRead rk => conclude rk k e
+  | SKPut _ => if ehas e then Some ROk else None
+  | SKDel _ => if ehas e then None else Some ROk
+  end.
+
+(** the atomic store operation of a single-key call *)
+Definition sk_store (a : sk) (k : key) (store : list key) : list key * bool :=
+  match a with
+  | SKRead _ => (store, mem k store)
+  | SKPut fault => if mem k store then (store, true) else if fault then (store, false) else (insert k store, true)
+  | SKDel fault => if negb (mem k store) then (store, true) else if fault then (store, false) else (remove k store, true)
+  end.
+
+Definition start_op (s : cst) (t : tid) (o : op) : pc :=
+  match o with
+  | ORead rk k => enter (SKRead rk) k
+  | OPut k f => enter (SKPut f) k
+  | ODelete k f => enter (SKDel f) k
+  | OPutMany ks f => if c_tq cf then MQuery ks f ks [] else MSPre ks f ks
+  | ORebuild n c => RMu true n c
+  | ORebuildCancelled | OActive => PIdle
+  end.
+
+(** one step of thread [t]; [None] = not enabled (blocked, or nothing to do) *)
+Definition tstep (s : cst) (t : tid) : option cst :=
+  let th := tget s t in
+  match t_pc th with
+  | PIdle =>
+      match t_ops th with
+      | [] => None
+      | ORebuildCancelled :: r => Some (set_thr s t (mkT r PIdle (RErr :: t_res th)))
+      | OActive :: r => Some (set_thr s t (mkT r PIdle (RBool (c_bloom cf && g_active s) :: t_res th)))
+      | o :: r => Some (set_thr s t (mkT r (start_op s t o) (t_res th)))
+      end
+  | BActive a k =>
+      if g_active s then
+        if d_toctou fl then Some (set_pc s t (BFilter a k))
+        else if bsub (pos k) (g_filt s) then Some (set_pc s t (enter_inner a k))
+             else Some (finish s t (sk_missing a))
+      else Some (set_pc s t (enter_inner a k))
+  | BFilter a k =>
+      if bsub (pos k) (g_filt s) then Some (set_pc s t (enter_inner a k))
+      else Some (finish s t (sk_missing a))
+  | TQuery a k =>
+      match match lookup k (g_cache s) with Some e => sk_conclude a k e | None => None end with
+      | Some r => Some (after_inner s t a k r)
+      | None => Some (set_pc s t (TLock a k))
+      end
+  | TLock a k =>
+      if can_lock s t k (is_write a) then Some (set_pc s t (SPre a k)) else None
+  | SPre a k =>
+      let (x, o) := sk_store a k (g_store s) in
+      Some (set_pc (set_store s x) t (SPost a k o))
+  | SPost a k o =>
+      if c_tq cf then Some (set_pc s t (TUpd a k o))
+      else Some (after_inner s t a k (sk_res a k o))
+  | TUpd a k o =>
+      Some (set_pc (set_cache s (sk_upd a k o (g_cache s))) t (TUnlock a k (sk_res a k o)))
+  | TUnlock a k r => Some (after_inner s t a k r)
+  | BLoad k => Some (set_pc s t (BAdd k (g_gen s)))
+  | BAdd k g =>
+      Some (finish (if g =? g_gen s then set_filt s (N.lor (pos k) (g_filt s)) else s) t ROk)
+  (* ---- PutMany ---- *)
+  | MQuery ks f todo good =>
+      match todo with
+      | k :: r =>
+          let fwd := match lookup k (g_cache s) with Some e => negb (ehas e) | None => true end in
+          Some (set_pc s t (MQuery ks f r (if fwd then good ++ [k] else good)))
+      | [] =>
+          match sort_dedup good with
+          | [] => if c_bloom cf then Some (set_pc s t (MLoad ks)) else Some (finish s t ROk)
+          | g' => Some (set_pc s t (MLock ks f [] g'))
+          end
+      end
+  | MLock ks f locked todo =>
+      match todo with
+      | k :: r => if can_lock s t k true then Some (set_pc s t (MLock ks f (locked ++ [k]) r)) else None
+      | [] => Some (set_pc s t (MSPre ks f locked))
+      end
+  | MSPre ks f good =>
+      if forallb (fun k => mem k (g_store s)) good then Some (set_pc s t (MSPost ks good true))
+      else if f then Some (set_pc s t (MSPost ks good false))
+      else Some (set_pc (set_store s (fold_left (fun x k => insert k x) good (g_store s))) t (MSPost ks good true))
+  | MSPost ks good o =>
+      if c_tq cf then
+        (if o then Some (set_pc s t (MUpd ks good good)) else Some (set_pc s t (MUnlock ks good RErr)))
+      else if o then (if c_bloom cf then Some (set_pc s t (MLoad ks)) else Some (finish s t ROk))
+           else Some (finish s t RErr)
+  | MUpd ks good todo =>
+      match todo with
+      | k :: r => Some (set_pc (set_cache s (cset k (CSize (sz k)) (g_cache s))) t (MUpd ks good r))
+      | [] => Some (set_pc s t (MUnlock ks good ROk))
+      end
+  | MUnlock ks todo r =>
+      match todo with
+      | _ :: rest => Some (set_pc s t (MUnlock ks rest r))
+      | [] => match r with
+              | ROk => if c_bloom cf then Some (set_pc s t (MLoad ks)) else Some (finish s t ROk)
+              | _ => Some (finish s t r)
+              end
+      end
+  | MLoad todo =>
+      match todo with
+      | k :: r => Some (set_pc s t (MAdd r k (g_gen s)))
+      | [] => Some (finish s t ROk)
+      end
+  | MAdd todo k g =>
+      Some (set_pc (if g =? g_gen s then set_filt s (N.lor (pos k) (g_filt s)) else s) t (MLoad todo))
+  (* ---- Rebuild / initial build ---- *)
+  | RMu rebuild n c =>
+      if mu_free s t then Some (set_pc s t (if rebuild then RDeact n c else RQPre n c)) else None
+  | RDeact n c => Some (set_pc (set_active s false) t (RSwap n c))
+  | RSwap n c => Some (set_pc (swap_filter s) t (RQPre n c))
+  | RQPre n c => Some (set_pc s t (RQPost n c (g_store s)))
+  | RQPost n c snap => Some (set_pc s t (RNext n c 0 snap))
+  | RNext n c i rem =>
+      if i <? n then
+        match rem with
+        | k :: r => Some (set_pc (set_filt s (N.lor (pos k) (g_filt s))) t (RNext n c (S i) r))
+        | [] => if c then Some (set_pc s t RActivate) else Some (set_pc s t (RMuUnlock RErr))
+        end
+      else
+        match rem with
+        | [] => if c then Some (set_pc s t RActivate) else Some (set_pc s t (RMuUnlock RErr))
+        | _ => Some (set_pc s t (RMuUnlock RErr))
+        end
+  | RActivate =>
+      if d_early fl || no_put_window s t then Some (set_pc (set_active s true) t (RMuUnlock ROk)) else None
+  | RMuUnlock r => Some (finish s t r)
+  end.
+
+(** labels: a thread moves, or the 2Q cache evicts an entry *)
+Inductive label := LThread (t : tid) | LEvict (k : key).
+
+Definition lstep (s : cst) (l : label) : option cst :=
+  match l with
+  | LThread t => tstep s t
+  | LEvict k => Some (set_cache s (cdel k (g_cache s)))
+  end.
+
+(** a run along a label sequence ([None] if some step is not enabled) *)
+Fixpoint lrun (s : cst) (ls : list label) : option cst :=
+  match ls with
+  | [] => Some s
+  | l :: r => match lstep s l with Some s' => lrun s' r | None => None end
+  end.
+
+(** initial state: thread 0 is the initial build when there is a Bloom layer *)
+Definition cinit (keys : list key) (bn : nat) (bc : bool) (progs : list (list op)) : cst :=
+  let thr := map (fun p => mkT p PIdle []) progs in
+  let thr0 := if c_bloom cf then mkT [] (RMu false bn bc) [] :: thr else thr in
+  mkC (sort_dedup keys) [] 0%N 0 false (combine (seq 0 (length thr0)) thr0).
+
+End Lts.
+
+(** ================================================================== *)
+(** * Part 3: linearizability of a finite history against the map *)
+
+Record hop := mkH { h_op : op; h_res : res; h_inv : nat; h_resp : nat }.
+
+Section Lin.
+Variable sz : key -> Z.
+
+(** [a] may be linearized first among [l]: nothing in [l] returned before [a] was invoked *)
+Definition minimal (a : hop) (l : list hop) : bool :=
+  forallb (fun b => negb (h_resp b <? h_inv a)) l.
+
+(** try every pending operation that may go first and whose answer the map gives *)
+Fixpoint lin_search (fuel : nat) (store : list key) (pending : list hop) : bool :=
+  match pending with
+  | [] => true
+  | _ =>
+    match fuel with
+    | O => false
+    | S f =>
+      (fix try (before after : list hop) : bool :=
+         match after with
+         | [] => false
+         | a :: r =>
+             (minimal a (before ++ r) &&
+              (let (store', so) := spec_step sz store (h_op a) in
+               out_agrees (h_res a) so && lin_search f store' (before ++ r)))
+             || try (before ++ [a]) r
+         end) [] pending
+    end
+  end.
+
+Definition linearizable (init : list key) (h : list hop) : bool :=
+  lin_search (length h) (sort_dedup init) h.
+End Lin.
+
+(** ================================================================== *)
+(** * Correspondence case for one executed schedule
+
+    The harness ran 2-3 goroutines against the real CachedBlockstore over a fake
+    datastore whose every call parks on a scheduler.  It logged every scheduler
+    action and, after each, where every thread was. *)
+
+Inductive call := CHas | CGet | CGetSize | CPut | CDelete | CCommit | CQuery | CNext.
+
+Inductive status :=
+| TIdle (ndone : nat)                          (* between calls; [ndone] calls have returned *)
+| TPre (c : call) (k : nat)                    (* parked before a datastore call takes effect *)
+| TPost (c : call) (k : nat) (v : bool)        (* parked after it took effect, before it returns *)
+| TBlocked.                                    (* waiting for a mutex *)
+
+Inductive action := AStart (t : tid) | ARel (t : tid).
+
+Record cstep := mkStep { a_act : action; a_status : list status }.
+
+Record conccase := mkConc {
+  k_cfg : cfg;
+  k_pos : list (list N);
+  k_sz : list Z;
+  k_init : list key;
+  k_bn : nat; k_bc : bool;              (* enumeration outcome of the initial build (thread 0) *)
+  k_progs : list (list op);             (* programs of the worker threads *)
+  k_st0 : list status;                  (* where the threads are after construction *)
+  k_trace : list cstep;
+  k_results : list (list res)           (* answers per thread (thread 0 = initial build when Bloom) *)
+}.
+
+Definition call_eqb (a b : call) : bool :=
+  match a, b with
+  | CHas, CHas | CGet, CGet | CGetSize, CGetSize | CPut, CPut | CDelete, CDelete
+  | CCommit, CCommit | CQuery, CQuery | CNext, CNext => true
+  | _, _ => false
+  end.
+
+Definition status_eqb (a b : status) : bool :=
+  match a, b with
+  | TIdle n, TIdle m => n =? m
+  | TPre c k, TPre c' k' => call_eqb c c' && (k =? k')
+  | TPost c k v, TPost c' k' v' => call_eqb c c' && (k =? k') && Bool.eqb v v'
+  | TBlocked, TBlocked => true
+  | _, _ => false
+  end.
+
+Definition call_of (a : sk) : call :=
+  match a with
+  | SKRead KHas => CHas | SKRead KGetSize => CGetSize | SKRead _ => CGet
+  | SKPut _ => CPut | SKDel _ => CDelete
+  end.
+
+(** datastore call of blockstore.PutMany on the forwarded blocks *)
+Definition many_call (good : list key) : call * nat :=
+  match good with
+  | [k] => (CPut, k)
+  | k :: _ => (CCommit, k)
+  | [] => (CCommit, QMARK)
+  end.
+
+(** where the harness sees a thread whose model program counter is [p] *)
+Definition status_of (th : thread) : option status :=
+  match t_pc th with
+  | PIdle => Some (TIdle (length (t_res th)))
+  | SPre a k => Some (TPre (call_of a) k)
+  | SPost a k o => Some (TPost (call_of a) k o)
+  | MSPre _ _ good => let (c, k) := many_call good in Some (TPre c k)
+  | MSPost _ good o => let (c, k) := many_call good in Some (TPost c k o)
+  | RQPre _ _ => Some (TPre CQuery QMARK)
+  | RQPost _ _ _ => Some (TPost CQuery QMARK false)
+  | RNext _ _ i _ => Some (TPre CNext i)
+  | _ => None
+  end.
+
+Section Replay.
+Variable cf : cfg.
+Variable fl : flags.
+Variable pos : key -> N.
+Variable sz : key -> Z.
+
+(** run the internal steps of [t] until the harness would see it at [target];
+    also report whether an activation was taken while a Put was inside its window *)
+Fixpoint advance (fuel : nat) (s : cst) (t : tid) (target : status) (early : bool) : option (cst * bool) :=
+  match fuel with
+  | O => None
+  | S f =>
+    let th := tget s t in
+    match status_of th with
+    | Some st => if status_eqb st target then Some (s, early) else None
+    | None =>
+      let stop_blocked :=
+        match target, t_pc th with
+        | TBlocked, TLock a k => negb (is_write a) || negb (can_lock s t k true)
+        | TBlocked, MLock _ _ _ (k :: _) => negb (can_lock s t k true)
+        | TBlocked, RMu _ _ _ => negb (mu_free s t)
+        | _, _ => false
+        end in
+      if stop_blocked then Some (s, early) else
+      let early' := early || match t_pc th with RActivate => negb (no_put_window s t) | _ => false end in
+      match tstep cf fl pos sz s t with
+      | Some s' => advance f s' t target early'
+      | None => None
+      end
+    end
+  end.
+
+Definition apply_action (s : cst) (a : action) : option cst :=
+  match a with
+  | AStart t =>
+      match t_pc (tget s t), t_ops (tget s t) with
+      | PIdle, _ :: _ => tstep cf fl pos sz s t
+      | _, _ => None
+      end
+  | ARel t =>
+      match status_of (tget s t) with
+      | Some (TPre _ _) | Some (TPost _ _ _) => tstep cf fl pos sz s t
+      | _ => None
+      end
+  end.
+
+Definition actor (a : action) : tid := match a with AStart t | ARel t => t end.
+
+Definition is_blocked (st : status) : bool := match st with TBlocked => true | _ => false end.
+
+(** threads in the order they are advanced: the acting thread, then those seen
+    moving, then those seen blocked *)
+Definition advance_order (a : action) (sts : list status) : list (tid * status) :=
+  let l := combine (seq 0 (length sts)) sts in
+  filter (fun p => fst p =? actor a) l
+  ++ filter (fun p => negb (fst p =? actor a) && negb (is_blocked (snd p))) l
+  ++ filter (fun p => negb (fst p =? actor a) && is_blocked (snd p)) l.
+
+Fixpoint advance_all (s : cst) (l : list (tid * status)) (early : bool) : option (cst * bool) :=
+  match l with
+  | [] => Some (s, early)
+  | (t, st) :: r =>
+      match advance 64 s t st early with
+      | Some (s', e') => advance_all s' r e'
+      | None => None
+      end
+  end.
+
+Fixpoint replay (s : cst) (tr : list cstep) (early : bool) : option (cst * bool) :=
+  match tr with
+  | [] => Some (s, early)
+  | x :: r =>
+      match apply_action s (a_act x) with
+      | None => None
+      | Some s1 =>
+          match advance_all s1 (advance_order (a_act x) (a_status x)) early with
+          | Some (s2, e2) => replay s2 r e2
+          | None => None
+          end
+      end
+  end.
+End Replay.
+
+(** the history of data operations read off the trace: call [i] of thread [t] is
+    invoked by the [i]-th [AStart t] and has returned at the first step after
+    which the thread is seen idle with more than [i] calls done *)
+Definition starts_of (t : tid) (tr : list cstep) : list nat :=
+  map fst (filter (fun p => match a_act (snd p) with AStart t' => t' =? t | _ => false end)
+             (combine (seq 0 (length tr)) tr)).
+
+Definition resp_of (t : tid) (i : nat) (tr : list cstep) : nat :=
+  match filter (fun p => match nth t (a_status (snd p)) TBlocked with TIdle n => i <? n | _ => false end)
+          (combine (seq 0 (length tr)) tr) with
+  | (j, _) :: _ => j
+  | [] => length tr
+  end.
+
+Definition is_data (o : op) : bool :=
+  match o with ORead _ _ | OPut _ _ | ODelete _ _ | OPutMany _ _ => true | _ => false end.
+
+Fixpoint thread_hist (t : tid) (i : nat) (ops : list op) (rs : list res) (starts : list nat) (tr : list cstep) : list hop :=
+  match ops, rs, starts with
+  | o :: ops', r :: rs', st :: starts' =>
+      (if is_data o then [mkH o r st (resp_of t i tr)] else [])
+      ++ thread_hist t (S i) ops' rs' starts' tr
+  | _, _, _ => []
+  end.
+
+Definition history (c : conccase) : list hop :=
+  let off := if c_bloom (k_cfg c) then 1 else 0 in
+  flat_map (fun p => let t := fst p + off in
+                     thread_hist t 0 (snd p) (nth t (k_results c) []) (starts_of t (k_trace c)) (k_trace c))
+           (combine (seq 0 (length (k_progs c))) (k_progs c)).
+
+Definition flags_today : flags := Build_flags true true.
+
+Definition check_conc (c : conccase) : verdict :=
+  let cf := k_cfg c in
+  let masks := map mask_of (k_pos c) in
+  let pos := fun k => nth k masks 0%N in
+  let sz := fun k => nth k (k_sz c) 0%Z in
+  let s0 := cinit cf (k_init c) (k_bn c) (k_bc c) (k_progs c) in
+  let lin := linearizable sz (k_init c) (history c) in
+  match match advance_all cf flags_today pos sz s0 (combine (seq 0 (length (k_st0 c))) (k_st0 c)) false with
+        | Some (s1, e1) => replay cf flags_today pos sz s1 (k_trace c) e1
+        | None => None
+        end with
+  | Some (s, early) =>
+      let model_ok :=
+        list_eqb (list_eqb res_eqb)
+          (map (fun t => rev (t_res (tget s t))) (seq 0 (length (k_results c)))) (k_results c) in
+      if lin then (if model_ok then VOk else VModelMismatch)
+      else if model_ok && early then VKnown 1 else VSpecFail
+  | None => if lin then VModelMismatch else VSpecFail
+  end.
+
+Inductive case := CSeq (c : seqcase) | CConc (c : conccase).
 
 Definition check_case (c : case) : verdict :=
   match c with
   | CSeq q => check_seq q
+  | CConc q => check_conc q
   end.
